@@ -102,6 +102,9 @@ func TestC05Container(t *testing.T) {
 		cfg := kit.GenConfig(rt, kit.FullOpts())
 		nplant := rapid.IntRange(0, 3).Draw(rt, "nplant")
 		planted := kit.PlantDeps(rt, cfg, nplant, true)
+		if rapid.IntRange(0, 2).Draw(rt, "plantcycle") == 0 && kit.PlantCycle(rt, cfg) {
+			planted = append(planted, "cycle(+shared parent)")
+		}
 		m, err := kit.NewModel(cfg)
 		if err != nil {
 			rt.Fatalf("invalid config: %v", err)
@@ -601,7 +604,10 @@ func TestC07Random(t *testing.T) {
 		o := kit.FullOpts()
 		o.MaxRegs = 12
 		cfg := kit.GenConfig(rt, o)
-		planted := kit.PlantDeps(rt, cfg, rapid.IntRange(0, 3).Draw(rt, "nplant"), true)
+		planted := kit.PlantDeps(rt, cfg, rapid.IntRange(0, 2).Draw(rt, "nplant"), true)
+		if rapid.Bool().Draw(rt, "captive") && kit.PlantCaptive(rt, cfg) {
+			planted = append(planted, "captive-dependency")
+		}
 		m, err := kit.NewModel(cfg)
 		if err != nil {
 			rt.Fatal(err)
